@@ -214,6 +214,7 @@ class Alias:
         for k in sm.get("returns_param", ()):
             a = s._arg(c, sm, k)
             if a is not None: out |= s.al(a, env)
+        out |= set(sm.get("returns_global", ()))          # a module-level buffer the callee fills and hands back
         if sm.get("returns_fresh", True) and not out: out.add(FRESH)
         if not out: out.add(FRESH)
         return out
@@ -289,6 +290,8 @@ class Alias:
                     a = s._arg(c, sm, k)
                     if a is not None:
                         s.sinks.append(Sink(c, "callee-write", ast.unparse(a), s.al(a, env), f"{sm.get('key')} writes its parameter {k}"))
+                for g_ in sm.get("returns_global", ()):
+                    s.sinks.append(Sink(c, "callee-write", g_, {g_}, f"{sm.get('key')} refills the module-level buffer {g_[7:]} and returns it"))
 
     def stmt(s, st, env):
         if isinstance(st, (ast.FunctionDef, ast.ClassDef, ast.Import, ast.ImportFrom, ast.Pass, ast.Global, ast.Nonlocal, ast.Break, ast.Continue)):
